@@ -17,9 +17,16 @@ PLAN = [
     ("C09", {"C09-a": "u vectors", "C09-b": "v = Σ x(m²+p²) − uᵀL⁻¹u", "C09-c": "L⁻¹ is the inverse of that L"}),
     ("C11", {"C11-a": "the returned ratio (u_trop/u)^(D/2)(v_trop/v)^dod = jacobian/normalisation on the same u, v",
              "C11-d": "bookkeeping in every iteration, last edge included"}),
-    ("C20", {"C20-a": "for T = f64 the scalar operations these formulas are written in (powf of the rescaling, sqrt, ln, exp, …) are std's"}),
 ]
 
 
 def run(ctx):
     run_restated(ctx, PLAN)
+    # for T = f64 the scalar operations behind U_tr, V_tr, U, V and the ratio are std's (restated from C20-a, exactly those reachable)
+    from .restate import restate_f64_primitives
+    from .kernels import sample_world
+    from .c06 import find_sector
+    def kernel(k):
+        return lambda: sample_world(ctx).roles[k]
+    restate_f64_primitives(ctx, [lambda: find_sector(ctx, ctx.roles), lambda: ctx.roles.decompose(), kernel("lmatrix"), kernel("uvec"), kernel("vpoly")],
+                           "the sector routine, L, u, V, the decomposition and the jacobian assembly", shallow=[lambda: ctx.roles.sample()])
